@@ -198,7 +198,8 @@ func isValidFlag(s string) bool {
 			}
 		}
 	}
-	return len(s) > 0
+	// a lone backslash is neither a flag-keyword nor a flag-extension
+	return len(s) > 0 && s != "\\"
 }
 
 func (enc *Encoder) Number(v uint32) *Encoder {
